@@ -2,7 +2,11 @@ package c12
 
 // Part "node" of the C12 check: a real f3.F3 node (mocknet, real gossipsub,
 // FakeEC, mock clock, in-memory datastore, REAL write-ahead-log directory)
-// holding the only signing identity of the power table. An observer libp2p
+// holding every signing identity of the power table: one identity in two
+// stacks out of three, TWO local identities with equal power (one node signing
+// for two storage providers) in every third case. A share of the graceful
+// restarts re-creates the node with a manifest that differs from the previous
+// one only in tuning parameters (same network name, same consensus rules). An observer libp2p
 // peer subscribed to the node's GPBFT topic records everything the node hands
 // to the network. The harness plays the signing client and also issues
 // conflicting requests through the public API, restarts the node, and forks
@@ -53,6 +57,7 @@ var dbg = os.Getenv("C12_DEBUG")
 
 const (
 	nodeActor    = gpbft.ActorID(4242)
+	nodeActor2   = gpbft.ActorID(4243) // second local identity of a two-identity stack
 	purgeHorizon = 6 // host.go keeps 5 instances behind the finalized one in the WAL
 )
 
@@ -92,6 +97,7 @@ func msgID(m *gpbft.GMessage) string {
 
 type request struct {
 	Kind     string `json:"kind"`
+	Sender   gpbft.ActorID `json:"sender"`
 	Inst     uint64 `json:"instance"`
 	Round    uint64 `json:"round"`
 	Phase    string `json:"phase"`
@@ -177,6 +183,17 @@ func c12Manifest(compress bool) manifest.Manifest {
 	return m
 }
 
+// tunedManifest returns m with only tuning parameters changed (k selects the
+// variant; k = 0 is m itself): the network name, bootstrap, initial instance,
+// committee lookback, EC and every GPBFT timing that decides how consensus
+// runs stay as they are, so the node continues the SAME network and must find
+// its write-ahead log again.
+func tunedManifest(m manifest.Manifest, k int) manifest.Manifest {
+	m.Gpbft.RebroadcastBackoffMax = 5*time.Second + time.Duration(k%4)*500*time.Millisecond
+	m.CertificateExchange.MaximumPollInterval = manifest.DefaultCxConfig.MaximumPollInterval + time.Duration(k)*time.Second
+	return m
+}
+
 // ---- one stack = one libp2p/pubsub/clock/EC/datastore/WAL world for one node identity ---
 
 type stack struct {
@@ -186,6 +203,7 @@ type stack struct {
 	depth   int
 	seed    int64
 	rng     *rand.Rand // driver goroutine only
+	rngX    *rand.Rand // driver goroutine only: decisions added later (manifest tuning), kept off rng so that the older script is unchanged
 
 	ctx    context.Context
 	cancel context.CancelFunc
@@ -201,8 +219,12 @@ type stack struct {
 	ds     datastore.Batching
 	disk   string
 	signer *signing.FakeBackend
-	pubKey gpbft.PubKey
-	mfst   manifest.Manifest
+	// local signing identities, in power-table order (equal power, ascending id)
+	ids     []gpbft.ActorID
+	pubKeys []gpbft.PubKey
+	mfst    manifest.Manifest // driver goroutine only: replaced between lifetimes by a tuned variant
+	tune    int               // tuning variant of mfst (0: base)
+	netName gpbft.NetworkName // never changes
 	key    crypto.PrivKey
 	dec    encoding.EncodeDecoder[*gpbft.PartialGMessage]
 	obsWG  sync.WaitGroup
@@ -238,16 +260,22 @@ type detReader struct{ r *rand.Rand }
 
 func (d detReader) Read(p []byte) (int, error) { return d.r.Read(p) }
 
-func newStack(run *vkit.Run, caseIdx int, id string, depth int, seed int64, root string, key crypto.PrivKey, compress bool) (*stack, error) {
-	s := &stack{run: run, caseIdx: caseIdx, id: id, depth: depth, seed: seed, rng: detRand(seed),
+func newStack(run *vkit.Run, caseIdx int, id string, depth int, seed int64, root string, key crypto.PrivKey, compress bool, nIDs int) (*stack, error) {
+	s := &stack{run: run, caseIdx: caseIdx, id: id, depth: depth, seed: seed, rng: detRand(seed), rngX: detRand(seed ^ 0x5c12c12),
 		walSeen: map[string]bool{}, futureBump: map[uint64]bool{}, templates: map[slotKey]*tmpl{}, key: key}
 	ctx, cancel := context.WithCancel(context.Background())
 	ctx, s.clk = clock.WithMockClock(ctx)
 	s.ctx, s.cancel = ctx, cancel
 	s.mfst = c12Manifest(compress)
+	s.netName = s.mfst.NetworkName
 	s.signer = signing.NewFakeBackend()
-	s.pubKey, _ = s.signer.GenerateKey()
-	pt := gpbft.PowerEntries{{ID: nodeActor, PubKey: s.pubKey, Power: gpbft.NewStoragePower(1000)}}
+	var pt gpbft.PowerEntries
+	for _, a := range []gpbft.ActorID{nodeActor, nodeActor2}[:nIDs] {
+		pk, _ := s.signer.GenerateKey()
+		s.ids = append(s.ids, a)
+		s.pubKeys = append(s.pubKeys, pk)
+		pt = append(pt, gpbft.PowerEntry{ID: a, PubKey: pk, Power: gpbft.NewStoragePower(1000)})
+	}
 	// The FakeEC anchors its epoch 0 at construction time: always build it
 	// while the mock clock still shows the Unix epoch so that every stack of a
 	// lineage sees the same chain.
@@ -336,15 +364,11 @@ func (s *stack) close() {
 	_ = s.mn.Close()
 }
 
-func (s *stack) walDir() string {
-	m, _ := filepath.Glob(filepath.Join(s.disk, "wal", "*"))
-	for _, d := range m {
-		if st, err := os.Stat(d); err == nil && st.IsDir() {
-			return d
-		}
-	}
-	return ""
-}
+// walRoot is the directory below which the node keeps its write-ahead log(s):
+// <disk>/wal/<one directory per log the node ever opened>. The harness does not
+// assume how the node names the log directory; "the WAL" of the oracles is
+// everything below walRoot (on the unchanged tree: exactly one directory).
+func (s *stack) walRoot() string { return filepath.Join(s.disk, "wal") }
 
 // ---- observer ---------------------------------------------------------------------------
 
@@ -394,7 +418,7 @@ func (s *stack) observe(pg *gpbft.PartialGMessage, seq uint64) {
 	}
 	// Oracle 3 (durably before publish): the message is on the wire, so it
 	// must be readable from the WAL directory NOW (or have been earlier).
-	img, err := readWALImage(s.walDir())
+	img, err := readWALImage(s.walRoot())
 	if err != nil {
 		s.nDecodeErr.Add(1)
 		return
@@ -433,56 +457,85 @@ func (s *stack) observe(pg *gpbft.PartialGMessage, seq uint64) {
 // ---- WAL images ---------------------------------------------------------------------------
 
 type walImage struct {
-	names []string
+	dirs  []string // log directories below the WAL root, sorted
+	names []string // <log directory>/<file>, per directory older files first, the active tail last
 	data  [][]byte
 }
 
-// readWALImage reads every log file of dir into memory (older files first,
-// the active tail last), which is what a crash at this instant leaves behind.
-func readWALImage(dir string) (*walImage, error) {
+// readWALImage reads every log file below root (<root>/<log dir>/<file>) into
+// memory, which is what a crash at this instant leaves behind.
+func readWALImage(root string) (*walImage, error) {
 	img := &walImage{}
-	if dir == "" {
-		return img, nil
-	}
-	ents, err := os.ReadDir(dir)
+	subs, err := os.ReadDir(root)
 	if err != nil {
 		if errors.Is(err, os.ErrNotExist) {
 			return img, nil
 		}
 		return nil, err
 	}
-	names := make([]string, 0, len(ents))
-	for _, e := range ents {
-		if !e.IsDir() {
-			names = append(names, e.Name())
+	for _, sd := range subs {
+		if !sd.IsDir() {
+			continue
 		}
-	}
-	sort.Strings(names)
-	for _, n := range names {
-		b, err := os.ReadFile(filepath.Join(dir, n))
+		ents, err := os.ReadDir(filepath.Join(root, sd.Name()))
 		if err != nil {
 			if errors.Is(err, os.ErrNotExist) {
-				continue // purged between listing and reading: a later crash image
+				continue
 			}
 			return nil, err
 		}
-		img.names = append(img.names, n)
-		img.data = append(img.data, b)
+		img.dirs = append(img.dirs, sd.Name())
+		names := make([]string, 0, len(ents))
+		for _, e := range ents {
+			if !e.IsDir() {
+				names = append(names, e.Name())
+			}
+		}
+		sort.Strings(names)
+		for _, n := range names {
+			b, err := os.ReadFile(filepath.Join(root, sd.Name(), n))
+			if err != nil {
+				if errors.Is(err, os.ErrNotExist) {
+					continue // purged between listing and reading: a later crash image
+				}
+				return nil, err
+			}
+			img.names = append(img.names, filepath.Join(sd.Name(), n))
+			img.data = append(img.data, b)
+		}
 	}
 	return img, nil
 }
 
-func (img *walImage) writeTo(dir string) error {
-	_ = os.RemoveAll(dir)
-	if err := os.MkdirAll(dir, 0o755); err != nil {
+func (img *walImage) writeTo(root string) error {
+	_ = os.RemoveAll(root)
+	if err := os.MkdirAll(root, 0o755); err != nil {
 		return err
 	}
+	for _, d := range img.dirs {
+		if err := os.MkdirAll(filepath.Join(root, d), 0o755); err != nil {
+			return err
+		}
+	}
 	for i, n := range img.names {
-		if err := os.WriteFile(filepath.Join(dir, n), img.data[i], 0o644); err != nil {
+		if err := os.WriteFile(filepath.Join(root, n), img.data[i], 0o644); err != nil {
 			return err
 		}
 	}
 	return nil
+}
+
+// readWALTree reads every log directory below root with the production WAL reader.
+func readWALTree(root string, dirs []string) ([]*gpbft.GMessage, error) {
+	var all []*gpbft.GMessage
+	for _, d := range dirs {
+		msgs, err := f3.VerifC12ReadWAL(filepath.Join(root, d))
+		if err != nil {
+			return nil, err
+		}
+		all = append(all, msgs...)
+	}
+	return all, nil
 }
 
 // parse reads the image with the production WAL reader on a private copy.
@@ -491,7 +544,7 @@ func (img *walImage) parse(tmp string) ([]*gpbft.GMessage, error) {
 		return nil, err
 	}
 	defer os.RemoveAll(tmp)
-	return f3.VerifC12ReadWAL(tmp)
+	return readWALTree(tmp, img.dirs)
 }
 
 // entryEnds returns the end offsets of the complete entries of one log file.
@@ -618,7 +671,7 @@ func (s *stack) broadcast(h *lifeHandle, sb *gpbft.SignatureBuilder, sig, vrf []
 	inst := int64(sb.Payload.Instance)
 	if kind != "honest" {
 		s.mu.Lock()
-		s.requests = append(s.requests, request{Kind: kind, Inst: sb.Payload.Instance, Round: sb.Payload.Round,
+		s.requests = append(s.requests, request{Kind: kind, Sender: sb.ParticipantID, Inst: sb.Payload.Instance, Round: sb.Payload.Round,
 			Phase: sb.Payload.Phase.String(), Sig: hex.EncodeToString(sig), Life: int(s.life.Load()), WireLen: len(s.wire), Conflict: conflicting})
 		s.mu.Unlock()
 	}
@@ -666,7 +719,8 @@ func randomTipsetKey(r *rand.Rand) gpbft.TipSetKey {
 
 // variant derives a request for the same slot as t with a different value
 // (hence a different signature), valid for the node's own gossip validator
-// wherever the harness can make it valid with the one key it holds.
+// wherever the harness can make it valid with the keys it holds (all of the
+// power table's).
 func (s *stack) variant(t *tmpl, r *rand.Rand) (*gpbft.SignatureBuilder, []byte, []byte, bool) {
 	p := t.sb.Payload
 	just := t.sb.Justification
@@ -703,21 +757,27 @@ func (s *stack) variant(t *tmpl, r *rand.Rand) (*gpbft.SignatureBuilder, []byte,
 			return nil, nil, nil, false
 		}
 		// a strong quorum of COMMITs for the alternative value: the harness
-		// holds the only key of the power table.
+		// holds every key of the power table.
 		cp := gpbft.Payload{Instance: p.Instance, Round: 0, Phase: gpbft.COMMIT_PHASE, SupplementalData: p.SupplementalData, Value: p.Value}
-		csig, err := s.signer.Sign(s.ctx, s.pubKey, cp.MarshalForSigning(s.mfst.NetworkName))
+		var csigs [][]byte
+		var idxs []int
+		var set []uint64
+		for i, pk := range s.pubKeys {
+			csig, err := s.signer.Sign(s.ctx, pk, cp.MarshalForSigning(s.netName))
+			if err != nil {
+				return nil, nil, nil, false
+			}
+			csigs, idxs, set = append(csigs, csig), append(idxs, i), append(set, uint64(i))
+		}
+		agg, err := s.signer.Aggregate(s.pubKeys)
 		if err != nil {
 			return nil, nil, nil, false
 		}
-		agg, err := s.signer.Aggregate([]gpbft.PubKey{s.pubKey})
+		asig, err := agg.Aggregate(idxs, csigs)
 		if err != nil {
 			return nil, nil, nil, false
 		}
-		asig, err := agg.Aggregate([]int{0}, [][]byte{csig})
-		if err != nil {
-			return nil, nil, nil, false
-		}
-		just = &gpbft.Justification{Vote: cp, Signers: bitfield.NewFromSet([]uint64{0}), Signature: asig}
+		just = &gpbft.Justification{Vote: cp, Signers: bitfield.NewFromSet(set), Signature: asig}
 	default:
 		return nil, nil, nil, false
 	}
@@ -768,32 +828,40 @@ func (s *stack) signLoop(ctx context.Context, h *lifeHandle) {
 		for s.withhold.Load() && ctx.Err() == nil {
 			time.Sleep(500 * time.Microsecond)
 		}
-		sb, err := mb.PrepareSigningInputs(nodeActor)
-		if err != nil {
-			continue
+		// the signing client answers for every local identity, in an order
+		// that varies from builder to builder
+		ids := append([]gpbft.ActorID(nil), s.ids...)
+		if len(ids) > 1 && r.Intn(2) == 0 {
+			ids[0], ids[1] = ids[1], ids[0]
 		}
-		sig, vrf, err := s.sign(sb)
-		if err != nil {
-			continue
-		}
-		s.nSigned.Add(1)
-		t := &tmpl{sb: *sb, sig: sig, vrf: vrf}
-		roll := r.Intn(100)
-		if roll < 6 {
-			// the conflicting request gets there first
-			if vsb, vsig, vvrf, ok := s.variant(t, r); ok {
-				s.broadcast(h, vsb, vsig, vvrf, "conflict-before", true)
+		for _, id := range ids {
+			sb, err := mb.PrepareSigningInputs(id)
+			if err != nil {
+				continue
 			}
-		}
-		s.remember(sb, sig, vrf)
-		s.broadcast(h, sb, sig, vrf, "honest", false)
-		switch {
-		case roll >= 6 && roll < 40:
-			if vsb, vsig, vvrf, ok := s.variant(t, r); ok {
-				s.broadcast(h, vsb, vsig, vvrf, "conflict-after", true)
+			sig, vrf, err := s.sign(sb)
+			if err != nil {
+				continue
 			}
-		case roll >= 40 && roll < 50:
-			s.broadcast(h, sb, sig, vrf, "duplicate", false)
+			s.nSigned.Add(1)
+			t := &tmpl{sb: *sb, sig: sig, vrf: vrf}
+			roll := r.Intn(100)
+			if roll < 6 {
+				// the conflicting request gets there first
+				if vsb, vsig, vvrf, ok := s.variant(t, r); ok {
+					s.broadcast(h, vsb, vsig, vvrf, "conflict-before", true)
+				}
+			}
+			s.remember(sb, sig, vrf)
+			s.broadcast(h, sb, sig, vrf, "honest", false)
+			switch {
+			case roll >= 6 && roll < 40:
+				if vsb, vsig, vvrf, ok := s.variant(t, r); ok {
+					s.broadcast(h, vsb, vsig, vvrf, "conflict-after", true)
+				}
+			case roll >= 40 && roll < 50:
+				s.broadcast(h, sb, sig, vrf, "duplicate", false)
+			}
 		}
 	}
 }
@@ -817,7 +885,7 @@ func (s *stack) burst(seed int64, goroutines, perG int, target *uint64) {
 				if n > 0 {
 					curInst = s.tmplOrder[n-1].Inst
 					var cands []slotKey
-					for i := n - 1; i >= 0 && i >= n-24; i-- {
+					for i := n - 1; i >= 0 && i >= n-24*len(s.ids); i-- {
 						cands = append(cands, s.tmplOrder[i])
 					}
 					if target != nil {
@@ -875,7 +943,8 @@ type forkSnap struct {
 	dsEntries []dsq.Entry
 	now       time.Time
 	shift     int64
-	walDir    string // relative name of the WAL directory below disk/wal
+	mfst      manifest.Manifest // the manifest the crashed process ran with
+	tune      int
 	img       *walImage
 	cutAt     int // -1: tail not cut
 	inflight  bool
@@ -914,13 +983,9 @@ func (s *stack) snapshot(id string, inflight bool) *forkSnap {
 	}
 	sn.now = s.clk.Now()
 	sn.shift = s.ec.shift.Load()
-	wd := s.walDir()
-	if wd == "" {
-		return nil
-	}
-	sn.walDir = filepath.Base(wd)
-	img, err := readWALImage(wd)
-	if err != nil {
+	sn.mfst, sn.tune = s.mfst, s.tune
+	img, err := readWALImage(s.walRoot())
+	if err != nil || len(img.dirs) == 0 {
 		return nil
 	}
 	sn.img = img
@@ -967,7 +1032,8 @@ func (s *stack) snapshot(id string, inflight bool) *forkSnap {
 	}
 	// Torn tail: cut the newest file at a random byte that keeps every entry
 	// the wire prefix depends on (those were fsynced before they were published).
-	if n := len(img.data); n > 0 && s.rng.Intn(100) < 60 {
+	// (Only with a single log directory, where "the newest file" is well defined.)
+	if n := len(img.data); n > 0 && s.rng.Intn(100) < 60 && len(img.dirs) == 1 {
 		inPrefix := map[string]bool{}
 		for i := range sn.prefix {
 			inPrefix[sn.prefix[i].id()] = true
@@ -989,10 +1055,12 @@ func (s *stack) snapshot(id string, inflight bool) *forkSnap {
 }
 
 func (s *stack) forkFrom(sn *forkSnap, root string) (*stack, error) {
-	f, err := newStack(s.run, s.caseIdx, sn.id, s.depth+1, s.seed^int64(len(sn.prefix))*31+int64(s.depth+1), root, s.key, s.mfst.PubSub.CompressionEnabled)
+	f, err := newStack(s.run, s.caseIdx, sn.id, s.depth+1, s.seed^int64(len(sn.prefix))*31+int64(s.depth+1), root, s.key, sn.mfst.PubSub.CompressionEnabled, len(s.ids))
 	if err != nil {
 		return nil, err
 	}
+	// a crash restart comes back with the manifest the crashed process had
+	f.mfst, f.tune = sn.mfst, sn.tune
 	f.clk.Set(sn.now)
 	f.ec.shift.Store(sn.shift)
 	for _, e := range sn.dsEntries {
@@ -1001,7 +1069,7 @@ func (s *stack) forkFrom(sn *forkSnap, root string) (*stack, error) {
 			return nil, err
 		}
 	}
-	if err := sn.img.writeTo(filepath.Join(f.disk, "wal", sn.walDir)); err != nil {
+	if err := sn.img.writeTo(f.walRoot()); err != nil {
 		f.close()
 		return nil, err
 	}
@@ -1019,7 +1087,7 @@ func (s *stack) forkFrom(sn *forkSnap, root string) (*stack, error) {
 	f.tmplOrder = sn.tmplOrder
 	f.life.Store(int64(sn.life))
 	// what the new process can read back from its disk
-	if msgs, err := f3.VerifC12ReadWAL(filepath.Join(f.disk, "wal", sn.walDir)); err == nil {
+	if msgs, err := readWALTree(f.walRoot(), sn.img.dirs); err == nil {
 		for _, m := range msgs {
 			f.walSeen[msgID(m)] = true
 			if m.Vote.Instance > f.walMaxInst {
@@ -1092,7 +1160,7 @@ func (s *stack) drain(maxWait time.Duration) {
 }
 
 type lineageStats struct {
-	restarts, forks, forksInflight, forksCut, lifetimes, futureBumps, storms int64
+	restarts, tunedRestarts, forks, forksInflight, forksCut, lifetimes, futureBumps, storms int64
 }
 
 // runLineage drives one stack through several lifetimes; snapshots taken on
@@ -1195,6 +1263,13 @@ func (s *stack) runLineage(cfg nodeCfg, lifetimes int, wantForks int, st *lineag
 			s.ec.shift.Store(int64(s.rng.Intn(3)))
 			if s.rng.Intn(100) < 70 {
 				s.clk.Add(time.Duration(s.rng.Intn(25000)) * time.Millisecond)
+			}
+			// ... and the operator may ship adjusted tuning parameters for the
+			// same network with the restart
+			if s.rngX.Intn(100) < 40 {
+				s.tune++
+				s.mfst = tunedManifest(s.mfst, s.tune)
+				atomic.AddInt64(&st.tunedRestarts, 1)
 			}
 		}
 	}
